@@ -150,13 +150,17 @@ def op_div(ctx, rng):
     before = [snap(a)]
     bps = fmt[1] * fmt[2]
     ln = len(before[0][0]) // bps
-    for n in range(1, ln + 4):
+    for n in list(range(1, ln + 4)) + [10 ** 6, 2 ** 64, 2 ** 64 + 1, 10 ** 30]:
         case = {"op": "div", "a": desc(a), "n": n}
         ctx.case(repr(case), True)
         ctx.count("op_div")
         if n > ln:
             ctx.count("op_div_n_greater_than_len")
-        pieces = a / n
+        try:
+            pieces = a / n
+        except Exception as exc:
+            ctx.violation("div-raises:" + type(exc).__name__, {"case": case, "exception": repr(exc)[:200]})
+            return
         if not isinstance(pieces, (list, tuple)) or not all(isinstance(p, AudioRegion) for p in pieces):
             ctx.violation("div-result-not-a-list-of-regions", {"case": case})
             return
@@ -208,10 +212,19 @@ def op_mismatch(ctx, rng):
         ctx.violation(f"regions-differing-in-{which}-compare-equal", {"case": case})
 
 
+class _SubRegion(AudioRegion):
+    """a trivial user subclass: still a region with the same bytes and parameters"""
+
+
 def op_eq(ctx, rng):
     fmt = rand_fmt(rng)
     a = mk(rng, fmt)
     same = AudioRegion(bytes(a.data), *fmt, rng.choice((None, 3.25)))
+    sub = _SubRegion(bytes(a.data), *fmt)
+    if (a == sub) is not True or (sub == a) is not True or (sub != a) is not False:
+        ctx.violation("eq-false-for-equal-regions", {"case": {"op": "eq-subclass", "a": desc(a)}})
+    elif a.data and ((sub * 1 == sub) is not True or (sum(sub / 2) == sub) is not True):
+        ctx.violation("eq-false-for-equal-regions", {"case": {"op": "eq-subclass-algebra", "a": desc(a)}})
     ctx.case(repr(("eq", desc(a))), bool(a.data))
     ctx.count("op_eq")
     if (a == same) is not True or (a != same) is not False:
@@ -252,8 +265,15 @@ def op_construct(ctx, rng):
     case = {"op": "construct-partial-sample", "nbytes": n, "fmt": [rate, width, channels]}
     ctx.case(repr(case), True)
     ctx.count("op_construct_partial")
+    start = rng.choice((None, 0, 0.0, 1.5))
+    case["start"] = start
     try:
-        AudioRegion(bytes(n), rate, width, channels)
+        if start is None:
+            AudioRegion(bytes(n), rate, width, channels)
+        elif rng.random() < 0.5:
+            AudioRegion(bytes(n), rate, width, channels, start)
+        else:
+            AudioRegion(bytes(n), rate, width, channels, start=start)
         ctx.violation("partial-sample-data-accepted-at-construction", {"case": case})
     except AudioParameterError:
         pass
